@@ -770,6 +770,7 @@ func GOMAXPROCS(n int) int { return NumCPU() }
 // ErrGroup replaces golang.org/x/sync/errgroup.Group (without context).
 type ErrGroup struct {
 	wg      WaitGroup
+	cancel  func(error)
 	err     error
 	limit   int
 	active  int
@@ -793,6 +794,9 @@ func (g *ErrGroup) Go(f func() error) {
 		}()
 		if err := f(); err != nil && g.err == nil {
 			g.err = err
+			if g.cancel != nil {
+				g.cancel(err)
+			}
 		}
 	})
 }
@@ -807,5 +811,8 @@ func (g *ErrGroup) TryGo(f func() error) bool {
 
 func (g *ErrGroup) Wait() error {
 	g.wg.Wait()
+	if g.cancel != nil {
+		g.cancel(g.err)
+	}
 	return g.err
 }
